@@ -101,7 +101,7 @@ func (c *Ctx) Info(key string, pos token.Pos, format string, args ...any) {
 
 // Report adds a violation when armed (package in scope), an info otherwise.
 func (c *Ctx) Report(armed bool, key string, pos token.Pos, format string, args ...any) {
-	if armed {
+	if armed || IsControlName(key) {
 		c.add(Violation, key, pos, format, args...)
 	} else {
 		c.add(Info, key, pos, "(out of armed scope) "+format, args...)
